@@ -27,7 +27,7 @@ type monC15 struct {
 	deep bool
 }
 
-func NewC15(deep bool) Monitor   { return &monC15{st: NewStats(), seen: map[string]bool{}, deep: deep} }
+func NewC15(deep bool) Monitor  { return &monC15{st: NewStats(), seen: map[string]bool{}, deep: deep} }
 func (m *monC15) Prop() string  { return "C15" }
 func (m *monC15) Stats() *Stats { return m.st }
 
